@@ -1,0 +1,44 @@
+//go:build verif
+
+package keeper
+
+// Contracts checked by /verif/govc (contract-based deductive verification).
+// Comment-only: with the `verif` tag off this file is not even parsed.
+
+// ---- parameters as functions of the context (assumed: the param store is a function of the state) ----
+//@ pure pcWindow(c Iface) int
+//@ pure pcBPS(c Iface) int
+
+//@ func (Keeper).ClaimSubmissionWindow
+//@   trusted parameter getter: a deterministic function of the context's state
+//@   pure_fn
+//@   ensures res == pcWindow(ctx)
+
+//@ func (Keeper).BlocksPerSession
+//@   trusted parameter getter: a deterministic function of the context's state
+//@   pure_fn
+//@   ensures result == pcBPS(ctx)
+
+// ---- C31: claim maturity window vs. entropy height -------------------------------------
+
+//@ func (Keeper).ClaimIsMature
+//@   props C31,C32
+//@   modifies nothing
+//@   ensures result == (ctxHeight(ctx) > pcWindow(ctx) * pcBPS(ctx) + sessionBlockHeight)
+
+// sctx: the context at the start of the claim's session
+//@ pure sctx(c Iface, sbh int) Iface = prevCtx(c, sbh)
+
+//@ func (Keeper).ValidateClaim
+//@   props C31,C32
+//@   ensures [evidence-type] err == nil ==> claim.EvidenceType != 0
+//@   ensures [session-ended] err == nil ==> ctxHeight(ctx) > claim.SessionHeader.SessionBlockHeight + pcBPS(sctx(ctx, claim.SessionHeader.SessionBlockHeight)) - 1
+//@   ensures [not-mature] err == nil ==> ctxHeight(ctx) <= pcWindow(ctx) * pcBPS(ctx) + claim.SessionHeader.SessionBlockHeight
+//@   ensures [unpredictable-upto-boundary] err == nil && pcWindow(ctx) == pcWindow(sctx(ctx, claim.SessionHeader.SessionBlockHeight)) && pcBPS(ctx) == pcBPS(sctx(ctx, claim.SessionHeader.SessionBlockHeight)) ==> ctxHeight(ctx) <= claim.SessionHeader.SessionBlockHeight + pcWindow(sctx(ctx, claim.SessionHeader.SessionBlockHeight)) * pcBPS(sctx(ctx, claim.SessionHeader.SessionBlockHeight))
+//@   ensures [unpredictable] err == nil ==> ctxHeight(ctx) < claim.SessionHeader.SessionBlockHeight + pcWindow(sctx(ctx, claim.SessionHeader.SessionBlockHeight)) * pcBPS(sctx(ctx, claim.SessionHeader.SessionBlockHeight))
+
+// The leaf index can only be computed once the entropy block header exists, and lies in range.
+//@ func (Keeper).getPseudorandomIndex
+//@   props C31
+//@   ensures [entropy-known] result1 == nil ==> header.SessionBlockHeight + pcWindow(sessionCtx) * pcBPS(sessionCtx) <= ctxHeight(ctx)
+//@   ensures [in-range] result1 == nil && totalRelays > 0 ==> 0 <= result0 && result0 < totalRelays
